@@ -52,6 +52,9 @@ func c11(c *ctx) {
 		for rep := 0; rep < c.pick(3, 20); rep++ {
 			nA := []int{2, 4, 8, 3, 5, 6, 7}[rep%7]
 			per := c.pick(10, 100)
+			if p4 && per*nA > 440 {
+				per = 440 / nA // the pipeline has 1024 counter cells, two per session
+			}
 			o := sysh.Opts{Race: true}
 			if p4 {
 				o = sysh.Opts{P4: true, Pool: "10.60.0.0/16", P4DefaultTC: 3, Race: true}
